@@ -229,8 +229,20 @@ def run(ctx) -> None:
     ctx.require(len(pa) == 1, "_get_axes_metadata_from_distributions: axis construction not found")
     vals = next((kw.value for kw in pa[0].keywords if kw.arg == "values"), None)
     loops = [l for l in walk_no_nested(gm.node) if isinstance(l, ast.For)]
-    ok = (vals is not None and norm_text(vals) in ("tuple(distribution)", "tuple(distribution.values)")
-          and len(loops) == 1 and norm_text(loops[0].iter) == "kwargs.items()")
+    ok = False
+    if vals is not None and len(loops) == 1 and isinstance(loops[0].iter, ast.Call) and isinstance(
+            loops[0].iter.func, ast.Attribute) and loops[0].iter.func.attr == "items" and \
+            dotted(loops[0].iter.func.value) == (gm.node.args.kwarg.arg if gm.node.args.kwarg else None):
+        # the axis values are tuple(<d>) / tuple(<d>.values) of the distribution looked up by the loop's name
+        inner = vals.args[0] if isinstance(vals, ast.Call) and call_name(vals) in ("tuple", "list") and vals.args else None
+        if isinstance(inner, ast.Attribute) and inner.attr == "values":
+            inner = inner.value
+        dvar = dotted(inner) if inner is not None else None
+        ddefs = [st.value for st in walk_no_nested(gm.node) if isinstance(st, ast.Assign)
+                 and any(dotted(t) == dvar for t in st.targets)]
+        namevar = loops[0].target.elts[0].id if isinstance(loops[0].target, ast.Tuple) else None
+        ok = (dvar is not None and len(ddefs) == 1 and isinstance(ddefs[0], ast.Call) and call_name(ddefs[0]) == "getattr"
+              and len(ddefs[0].args) == 2 and dotted(ddefs[0].args[0]) == "self" and dotted(ddefs[0].args[1]) == namevar)
     ctx.check(ok, "R-VALUES", gm.qualname, gm.where, "axes built in keyword order from the distribution's values",
               "the generic axis builder does not list the distribution's values in keyword order", key_detail="generic")
 
@@ -272,7 +284,8 @@ def run(ctx) -> None:
 
     # ---------------- R-UNPACK
     un = repo.function(DIST, "_unpack_distributions")
-    loops = [l for l in walk_no_nested(un.node) if isinstance(l, ast.For) and norm_text(l.iter) == "args"]
+    vararg = un.node.args.vararg.arg if un.node.args.vararg else "args"
+    loops = [l for l in walk_no_nested(un.node) if isinstance(l, ast.For) and norm_text(l.iter) == vararg]
     ctx.require(len(loops) == 1, "_unpack_distributions: loop over args not found")
     loop = loops[0]
     sw = [i for i in loop.body if isinstance(i, ast.If) and "BaseDistribution" in norm_text(i.test)]
@@ -280,53 +293,84 @@ def run(ctx) -> None:
     neg = isinstance(sw[0].test, ast.UnaryOp) and isinstance(sw[0].test.op, ast.Not)
     plain_arm, dist_arm = (sw[0].body, sw[0].orelse) if neg else (sw[0].orelse, sw[0].body)
 
+    # names are discovered from their roles, not assumed
+    ret = [r for r in walk_no_nested(un.node) if isinstance(r, ast.Return) and isinstance(r.value, ast.Tuple)
+           and len(r.value.elts) == 2 and not (isinstance(r.value.elts[0], ast.Tuple) and not r.value.elts[0].elts)]
+    ctx.require(len(ret) == 1, "_unpack_distributions: final `return unpacked, weights` not found")
+    assigns_all = {}
+    for st in walk_no_nested(un.node):
+        if isinstance(st, ast.Assign) and len(st.targets) == 1 and isinstance(st.targets[0], ast.Name):
+            assigns_all.setdefault(st.targets[0].id, []).append(st)
+    r0 = ret[0].value.elts[0]
+    weights_var = dotted(ret[0].value.elts[1])
+    if isinstance(r0, ast.Name) and len(assigns_all.get(r0.id, [])) == 1 and isinstance(
+            assigns_all[r0.id][0].value, ast.Call) and call_name(assigns_all[r0.id][0].value) == "tuple":
+        r0 = assigns_all[r0.id][0].value.args[0]
+    list_var = dotted(r0)
+    ctx.require(list_var is not None and weights_var is not None, "_unpack_distributions: result variables not found")
+    argvar = loop.target.id if isinstance(loop.target, ast.Name) else None
+    ctx.require(argvar is not None, "_unpack_distributions: loop target is not a name")
+
     def appends(arm):
         return [c for st in arm for c in ast.walk(st) if isinstance(c, ast.Call) and isinstance(c.func, ast.Attribute)
-                and c.func.attr == "append" and dotted(c.func.value) == "unpacked"]
+                and c.func.attr == "append" and dotted(c.func.value) == list_var]
+
+    aug = [x for st in dist_arm for x in ast.walk(st) if isinstance(x, ast.AugAssign) and isinstance(x.target, ast.Name)]
+    counter = aug[0].target.id if aug else None
 
     def increments(arm):
-        return [st for st in arm for x in ast.walk(st) if isinstance(x, ast.AugAssign) and isinstance(x.target, ast.Name)
-                and x.target.id == "i"]
+        return [x for st in arm for x in ast.walk(st) if isinstance(x, ast.AugAssign) and isinstance(x.target, ast.Name)
+                and x.target.id == counter]
 
     ok = len(appends(plain_arm)) == 1 and len(appends(dist_arm)) == 1
     ctx.check(ok, "R-UNPACK", f"{un.qualname}:arity", un.loc(loop), "one unpacked entry per argument in both arms",
               "an argument does not contribute exactly one unpacked entry: parameters shift against their names",
               key_detail="arity")
-    ok = len(increments(dist_arm)) == 1 and len(increments(plain_arm)) == 0 and not any(
-        isinstance(st, ast.AugAssign) and isinstance(st.target, ast.Name) and st.target.id == "i"
+    ok = counter is not None and len(increments(dist_arm)) == 1 and len(increments(plain_arm)) == 0 and not any(
+        isinstance(st, ast.AugAssign) and isinstance(st.target, ast.Name) and st.target.id == counter
         for st in loop.body)
     ctx.check(ok, "R-UNPACK", f"{un.qualname}:counter", un.loc(loop),
               "axis counter advances once per distribution only",
               "the new-axis counter does not advance exactly once per distribution (and never for scalars)",
               key_detail="counter")
-    axis_assign = [st for st in dist_arm if isinstance(st, ast.Assign) and isinstance(st.targets[0], ast.Name)
-                   and st.targets[0].id == "axis"]
-    ok = len(axis_assign) == 1 and norm_text(axis_assign[0].value).replace(" ", "") == \
-        "tuple_range_except(num_new_axes,i)+base_axes"
-    ctx.check(ok, "R-UNPACK", f"{un.qualname}:axis", un.loc(axis_assign[0] if axis_assign else loop),
-              "distribution i keeps axis i: expand over tuple_range_except(num_new_axes, i) + base_axes",
-              f"axis expression is `{norm_text(axis_assign[0].value) if axis_assign else '?'}`", key_detail="axis")
     exp = [c for st in dist_arm for c in ast.walk(st) if isinstance(c, ast.Call) and (call_name(c) or "").endswith(
         "expand_dims")]
+    axes_exprs = {norm_text(next((kw.value for kw in c.keywords if kw.arg == "axis"), c.args[1] if len(c.args) > 1 else c))
+                  for c in exp}
+    axis_var = next(iter(axes_exprs)) if len(axes_exprs) == 1 else None
+    axis_assign = [st for st in dist_arm if isinstance(st, ast.Assign) and isinstance(st.targets[0], ast.Name)
+                   and st.targets[0].id == axis_var]
+    okx = False
+    txt = "?"
+    if len(axis_assign) == 1 and isinstance(axis_assign[0].value, ast.BinOp) and isinstance(axis_assign[0].value.op, ast.Add):
+        l, r = axis_assign[0].value.left, axis_assign[0].value.right
+        txt = norm_text(axis_assign[0].value)
+        base_var = dotted(r)
+        okx = (isinstance(l, ast.Call) and call_name(l) == "tuple_range_except" and len(l.args) == 2
+               and dotted(l.args[1]) == counter and base_var is not None)
+        nn = dotted(l.args[0]) if okx else None
+        bdefs = assigns_all.get(base_var or "", [])
+        okb = (len(bdefs) == 1 and norm_text(bdefs[0].value).replace(" ", "") ==
+               f"tuple(range({nn},{nn}+len(shape)))")
+    else:
+        okb = False
+    ctx.check(okx, "R-UNPACK", f"{un.qualname}:axis", un.loc(axis_assign[0] if axis_assign else loop),
+              "distribution i keeps axis i: expand over tuple_range_except(num_new_axes, i) + base_axes",
+              f"axis expression is `{txt}`", key_detail="axis")
     srcs = sorted(norm_text(c.args[0]) for c in exp)
-    axes = {norm_text(next((kw.value for kw in c.keywords if kw.arg == "axis"), c.args[1] if len(c.args) > 1 else c))
-            for c in exp}
-    ok = srcs == ["arg.values", "arg.weights"] and axes == {"axis"}
+    ok = srcs == [f"{argvar}.values", f"{argvar}.weights"] and len(axes_exprs) == 1
     ctx.check(ok, "R-UNPACK", f"{un.qualname}:values-weights", un.loc(loop),
               "values and weights expanded with the same axes",
-              f"expanded {srcs} over {sorted(axes)}: values and weights are not aligned", key_detail="expand")
+              f"expanded {srcs} over {sorted(axes_exprs)}: values and weights are not aligned", key_detail="expand")
     wst = [st for st in dist_arm if isinstance(st, ast.Assign) and isinstance(st.targets[0], ast.Name)
-           and st.targets[0].id == "weights"]
+           and st.targets[0].id == weights_var]
     ok = len(wst) == 1 and any(isinstance(b, ast.BinOp) and isinstance(b.op, ast.Mult) and
-                               {dotted(b.left), dotted(b.right)} == {"weights", "new_weights"} for b in ast.walk(wst[0]))
+                               weights_var in (dotted(b.left), dotted(b.right)) and dotted(b.left) != dotted(b.right)
+                               for b in ast.walk(wst[0]))
     ctx.check(ok, "R-UNPACK", f"{un.qualname}:weights-product", un.loc(wst[0] if wst else loop),
               "joint weight = product of the distributions' weights",
               "the joint weight is not the product of the individual weights", key_detail="weights")
-    base_axes = [st for st in walk_no_nested(un.node) if isinstance(st, ast.Assign) and isinstance(st.targets[0], ast.Name)
-                 and st.targets[0].id == "base_axes"]
-    ok = len(base_axes) == 1 and norm_text(base_axes[0].value).replace(" ", "") == \
-        "tuple(range(num_new_axes,num_new_axes+len(shape)))"
-    ctx.check(ok, "R-UNPACK", f"{un.qualname}:base-axes", un.where, "base axes follow the new ensemble axes",
+    ctx.check(okb, "R-UNPACK", f"{un.qualname}:base-axes", un.where, "base axes follow the new ensemble axes",
               "base axes are not placed after the new ensemble axes", key_detail="base")
 
     # ---------------- R-KEYS
